@@ -81,7 +81,8 @@ class ListProxy(list, ContainerValueMixin):
         index: Union[int, slice],  # type: ignore[override]
         item: Union[Any, Iterable],
     ) -> None:
-        if isinstance(index, slice) and isinstance(item, (list, tuple)):
+        if isinstance(index, slice):
+            # any iterable (iterator, generator, another proxy), like list.__setitem__
             super().__setitem__(index, [self._validate(i) for i in item])
         elif isinstance(index, int):
             super().__setitem__(index, self._validate(item))
